@@ -226,7 +226,14 @@ for every field content, writing the performative with `more := true` never yiel
 "a default value is written as null" and "trailing nulls are dropped"), hence `p0 ≤ p1` and `p3 ≤ p2`
 (`transfer_fits`); that `more` is such a field, and the sixth, is a generated obligation
 (`transfer_more`). `Amqp.RecvCredit.resume` and `resume_reports_the_new_count` cover a receiver that
-detaches and resumes.
+detaches and resumes. `Amqp/PendingDetach.lean` is the search `detach` / `close` make for a detach the
+peer has already sent, over the link's incoming queue: `pending_detach_found` proves that for every
+queue it comes back within one turn per queued frame plus one (it cannot spin, also on a closed
+queue) with the first detach if there is one; the two ways a seeded change broke it are theorems too
+(`retrying_on_failure_spins`, and the example of a detach hidden behind an unread delivery).
+`latest_flow_decides` (C08) says that of the link flows a listener buffered until the application
+accepted the link the last one decides the credit; `refused_frame_leaves_nothing` (C10) that a
+contradictory continuation frame leaves the delivery in progress exactly as it was.
 
 *Driver* (`lean/Driver`) parses one line, runs the model, prints one canonical line. Errors are a
 small enum, maps are printed in wire order, byte strings in hex; nothing that came out of a hash
@@ -242,6 +249,7 @@ Generated on every run (a `(changed)` file triggers a Lean rebuild):
 | `SessionKernels`, `CreditKernels`, `RecvCreditKernels`, `SettleKernels`, `LimitsKernels`, `FrameKernels`, `FrameHeaderKernels`, `LinkSplitKernels`, `CancelKernels`, `SessLifeKernels`, `TxnKernels`, `SaslKernels` | the named functions of `session/mod.rs`, `link/state.rs`, `link/receiver_link.rs`, `link/sender_link.rs`, `link/receiver.rs`, `frames/amqp.rs`, `frames/sasl.rs`, `connection/*.rs`, `transaction/*.rs`, `acceptor/sasl_acceptor.rs` | every assignment, `let`, `if` / `while` condition and selected call argument as a Lean definition over the places it reads (wrapping / saturating / checked arithmetic of the declared width, `Duration` in µs, byte-string equality); and the rank of the first (or `last:`) occurrence of named calls and token sequences in the body |
 | `Fsm.lean` | `fe2o3-amqp-types/src/states.rs`, `connection/mod.rs`, `session/mod.rs`, `link/*.rs`, `connection/engine.rs`, `session/engine.rs` | the state enums; for each `match self.local_state` a total table state → next state / illegal (nested Boolean matches become parameters); which arm each state takes in the engines; `matches!` predicates |
 | `Schemas.lean` (+ `harness/src/gen_typed.rs`) | every `struct` of `fe2o3-amqp-types/src` with `#[amqp_contract(..)]` and a `SerializeComposite` / `DeserializeComposite` derive | descriptor name and code (computed as the derive macro computes them), encoding, and the fields in declaration order with wire name, declared type, `default` / `multiple`; the same walk writes the harness' generator and field accessor of every list-encoded composite, so that the model's schema and the harness' view of a value follow the working tree together |
+| `RoutingKernels`, `IoReadKernels`, `ListenerKernels`, `PendingDetachKernels` (third session; and further facts in `CreditKernels`, `RecvCreditKernels`, `ReasmKernels`) | `session/mod.rs`, `connection/mod.rs`, `serde_amqp/src/read/ioread.rs`, `acceptor/session.rs`, `link/shared_inner.rs`, `link/sender_link.rs`, `link/receiver_link.rs`, `link/receiver.rs` | presence and order of the statements the hand-written models mirror: which table is read / taken from / written when a frame is routed; what the io reader drains and when it counts (`drain` in both branches of `read_exact`, never `clear`; the forwarding read does not go through the counting `read_bytes`); the listener replays buffered flows with a `for` (no `pop`, no `rev`); the search for a pending detach skips other frames and ends on any failure of `try_recv`; one credit per delivery (`credit_available(1)`, `take_credit(1)`); the receiver's count is the attach's `initial-delivery-count` as it is; a batch disposal counts every delivery; a continuation frame is checked before its payload is kept. Each model states these as a Boolean (`sourceShape`, `replayOldestFirst`, `skipsOthers`, …) and a theorem `source_…` proves it `true` for the tree as it is — nineteen of the round-3 changes flip one of them |
 | `SaslTables.lean`, `TxnTables.lean` | `fe2o3-amqp-types/src/sasl`, `acceptor/connection.rs`, `connection/builder.rs`, `sasl_profile/mod.rs`, `transaction/coordinator.rs`, `transaction/session.rs` | `SaslCode` with wire values; per outcome code and per frame kind what the listener's and the client's loops do; what the coordinator does with each value of `fail`; what commit / rollback do with an unknown id |
 
 The translator is deliberately narrow: it understands literals, places, arithmetic, comparisons,
@@ -423,10 +431,12 @@ they are listed in §8 with the property whose check found them.
 * Arrays whose elements are null, lists, maps, arrays or described values do not round-trip in
   the implementation (known findings C03 / C20); they are outside the well-formedness predicate
   of the codec theorems, stated as an explicit decidable hypothesis.
-* The io reader model is hand-written (no generated part): it is tied to `read/ioread.rs` and
-  `read/slice.rs` only by the `ioread` runs (operation sequences over sources of every length, short
-  reads, every operation of the trait); `forward_read_str`'s UTF-8 check is outside the model (the
-  runs compare it on the implementation alone).
+* The io reader model is hand-written; it is tied to `read/ioread.rs` and `read/slice.rs` by the
+  `ioread` runs (operation sequences over sources of every length, short reads, every operation of the
+  trait) and by the generated obligation `source_io_shape` (which buffer operation, where the count
+  moves); `forward_read_str`'s UTF-8 check is outside the model (the runs compare it on the
+  implementation alone). The same holds for `Routing`, `ChanRouting`, `PendingDetach`: hand-written
+  control flow, generated facts about the statements mirrored, runs against the implementation.
 * Cryptographic strength (C19) is a parameter, not a theorem.
 * Tooling: Mathlib was not needed; `leanchecker` runs in the thorough tier only (1–2 min per
   module); Aeneas-style mechanical translation of whole functions is not available offline, hence
